@@ -85,7 +85,7 @@ static std::string argdump(bloc::Context& ctx, const std::vector<bloc::Expressio
   return o;
 }
 
-enum Method { Id = 0, Get, Set, Self, Other, Add, Out, Fail, Make, Mod, Hold };
+enum Method { Id = 0, Get, Set, Self, Other, Add, Out, Fail, Make, Mod, Hold, Renew };
 
 static PLUGIN_TYPE ctor_0_args[] = { { "I", 0 } };
 static PLUGIN_TYPE ctor_1_args[] = { { "O", 0 } };
@@ -104,6 +104,7 @@ static PLUGIN_ARG int_args[] = { { PLUGIN_IN, { "I", 0 } } };
 static PLUGIN_ARG obj_args[] = { { PLUGIN_IN, { "O", 0 } } };
 static PLUGIN_ARG add_args[] = { { PLUGIN_IN, { "I", 0 } }, { PLUGIN_IN, { "L", 0 } }, { PLUGIN_IN, { "N", 0 } }, { PLUGIN_IN, { "B", 0 } }, { PLUGIN_IN, { "X", 0 } } };
 static PLUGIN_ARG out_args[] = { { PLUGIN_INOUT, { "I", 0 } } };
+static PLUGIN_ARG renew_args[] = { { PLUGIN_INOUT, { "O", 0 } }, { PLUGIN_IN, { "I", 0 } } };
 
 static PLUGIN_METHOD methods[] =
 {
@@ -118,6 +119,7 @@ static PLUGIN_METHOD methods[] =
   { Make,  "make",  { "O", 0 }, 0, nullptr,  "returns a new object with value + 1" },
   { Mod,   "mod",   { "L", 0 }, 0, nullptr,  "the name of the module executing the method" },
   { Hold,  "hold",  { "I", 0 }, 1, int_args, "evaluates its argument once, then looks at its own object again: returns value + argument" },
+  { Renew, "renew", { "O", 0 }, 2, renew_args, "stores a new object into the given variable (which may be the receiver), looks at its own object again, returns itself" },
 };
 
 class VPlugin final : public PluginBase
@@ -254,6 +256,24 @@ public:
         throw RuntimeError(EXC_RT_OTHER_S, "vmod: variable required");
       ctx.storeVariable(args[0]->symbolId(), bloc::Value(bloc::Integer(o->val)));
       return new bloc::Value(bloc::Bool(true));
+    }
+    case Renew:
+    {
+      if (!args[0]->isVarName())
+        throw RuntimeError(EXC_RT_OTHER_S, "vmod: variable required");
+      long id0 = o->id;
+      bloc::Value& a1 = args[1]->value(ctx);
+      std::vector<bloc::Expression*> none;
+      bloc::Complex * c = bloc::Complex::newInstance(object_this.typeId(), -1, ctx, none);
+      if (c == nullptr)
+        return nullptr;
+      static_cast<VObj*>(c->instance())->val = a1.isNull() ? 0 : *a1.integer();
+      /* the variable may hold the last reference to this very object */
+      ctx.storeVariable(args[0]->symbolId(), bloc::Value(c));
+      vlog(std::string("M ") + VMOD_NAME + " " + std::to_string(id0) + " renew-after-store i" + std::to_string(o->val));
+      if (o->magic != VMOD_MAGIC)
+        vlog(std::string("X ") + VMOD_NAME + " object-gone-during-its-own-method renew");
+      return new bloc::Value(new bloc::Complex(object_this));
     }
     case Fail:
       throw RuntimeError(EXC_RT_OTHER_S, "vmod: method failed");
